@@ -8,6 +8,7 @@ import (
 	"crypto/sha256"
 	"encoding/binary"
 	"fmt"
+	"hash"
 	"sort"
 )
 
@@ -174,9 +175,11 @@ func Hash(img []byte) (*Result, error) {
 	return l.Hash(img)
 }
 
-// Hash applies steps 3-14 with the parsed layout.
-func (l *Layout) Hash(img []byte) (*Result, error) {
-	h := sha256.New()
+// Hash applies steps 3-14 with the parsed layout and SHA-256.
+func (l *Layout) Hash(img []byte) (*Result, error) { return l.HashWith(img, sha256.New()) }
+
+// HashWith applies steps 3-14 with the given hash function.
+func (l *Layout) HashWith(img []byte, h hash.Hash) (*Result, error) {
 	res := &Result{Covered: make([]uint16, len(img))}
 	feed := func(from, to uint64) error {
 		if from > to || to > uint64(len(img)) {
